@@ -23,6 +23,9 @@ shown to return exactly `Lower.lowerProgram B`.
 * **`C01.parseScript_print`** (c) — the main theorem, for structured programs of any depth and length;
   **`C01.source_then_run`** — composed with T2 (`C01.parse_then_run` with the text parser in place of `parseLines`).
 
+* **`C01.parseScript_printIndented` / `C01.parseScript_printPretty`** — the same with every line behind arbitrary blanks
+  (indentation by nesting depth in particular), given that the expression parser skips leading blanks.
+
 `BareProofs/C01SourceInst.lean` instantiates `pr` with the concrete expression printer `Print.printExpr`.
 -/
 
@@ -405,6 +408,151 @@ theorem source_then_run (pr : Expr → String) (B : List SStmt) (hw : WellNested
         toRes (execTB cfg (callValue₀ cfg) (execIncludes₀ cfg) false B 0 fuel none base { st with count := 0 }) :=
   ⟨lowerProgram B, parseScript_print pr B hw hf hi hp hrt, execute₀_lowered cfg base B hr fuel st⟩
 
+/-! ## indentation -/
+
+/-- an indentation: blanks, no line feed -/
+def IndentOK (ws : Chars) : Prop := allSpace ws = true ∧ '\n' ∉ ws
+
+/-- the text of classified lines, each behind its own indentation -/
+def printIndented (pr : Expr → String) (items : List (String × Line)) : String :=
+  "\n".intercalate (items.map fun p => p.1 ++ printLine pr p.2)
+
+theorem isCommentL_indent {ws t : Chars} (hw : allSpace ws = true) (h : HeadGood t) : isCommentL (ws ++ t) = false := by
+  obtain ⟨c, r, rfl, hs, hc⟩ := h
+  simp [isCommentL, C10.lstrip_append_ws _ hw, lstripL_cons_ns r hs, hc]
+
+/-- the statement loop, for any texts that classify as the given lines -/
+theorem stepAll_pairs (start : Nat) : ∀ (tl : List (String × Line)) (i : Nat) (s : St) (ps' : PState),
+    (∀ p ∈ tl, Scan.classify ExprParse.parseExpr p.1 = .ok p.2) → parseLinesFrom s.1 (tl.map Prod.snd) = .ok ps' →
+    ∃ wh', stepAll start s (C06.numbered i (tl.map Prod.fst)) = .ok (ps', wh')
+  | [], _, s, ps', _, h => by
+      simp only [List.map_nil, parseLinesFrom, Except.ok.injEq] at h
+      exact ⟨s.2, by simp [C06.numbered, stepAll, ← h]⟩
+  | (t, l) :: tl, i, s, ps', hc, h => by
+      simp only [List.map_cons, parseLinesFrom] at h
+      cases hs : stepLine s.1 l with
+      | error e => rw [hs] at h; cases h
+      | ok ps1 =>
+        rw [hs] at h
+        obtain ⟨wh1, h1⟩ := stepLogical_of_classify (start := start) (ix := i) (hc (t, l) (by simp)) hs
+        obtain ⟨wh', h2⟩ := stepAll_pairs start tl (i + 1) (ps1, wh1) ps' (fun x hx => hc x (List.mem_cons_of_mem _ hx)) h
+        exact ⟨wh', by simp only [List.map_cons, C06.numbered, stepAll, h1, h2]⟩
+
+/-- the end-of-input checks after an accepted run -/
+theorem finishAll_of_finish {start : Nat} {ps' : PState} {wh' : Where} {P : List Stmt} (h : finish ps' = .ok P) :
+    finishAll start (ps', wh') none = .ok P := by
+  unfold finish at h
+  unfold finishAll
+  cases hd : ps'.defs with
+  | cons d ds => rw [hd] at h; cases h
+  | nil =>
+    rw [hd] at h
+    cases hf : ps'.func with
+    | some f => rw [hf] at h; cases h
+    | none => rw [hf] at h; simp only [hd, hf]; simpa using h
+
+/-- **indentation does not matter**: every line of the printed text may stand behind any blanks (other than a line
+feed); the parser returns the same model.  `SkipsLeadingBlanks ExprParse.parseExpr` (the expression parser skips blanks
+in front of an expression *statement*; all other statement kinds strip the indentation themselves) is
+`C10.parseExpr_skips_leading_blanks`. -/
+theorem parseScript_printIndented (hsk : C10.SkipsLeadingBlanks ExprParse.parseExpr) (pr : Expr → String)
+    (items : List (String × Line)) (hind : ∀ p ∈ items, IndentOK p.1.toList)
+    (h : LinesPrintable pr (items.map Prod.snd)) {P : List Stmt} (hP : parseLines (items.map Prod.snd) = .ok P)
+    (start : Nat := 1) : parseScript [printIndented pr items] start = .ok P := by
+  -- the texts
+  let texts : List Chars := items.map fun p => p.1.toList ++ printLineL (fun e => (pr e).toList) p.2
+  have htoList : (printIndented pr items).toList = joinNl texts := by
+    unfold printIndented
+    rw [String.toList_intercalate, List.map_map]
+    have : (String.toList ∘ fun p : String × Line => p.1 ++ printLine pr p.2) =
+        fun p => p.1.toList ++ printLineL (fun e => (pr e).toList) p.2 := by
+      funext p; simp [printLine]
+    rw [this]
+    exact intercalate_eq_joinNl _
+  have hok := h.ok
+  have htext : ∀ t ∈ texts, isCommentL t = false ∧ contBody? t = none ∧ '\n' ∉ t ∧ t.getLast? ≠ some '\r' := by
+    intro t ht
+    obtain ⟨p, hp, rfl⟩ := List.mem_map.mp ht
+    obtain ⟨h1, h2, h3⟩ := printLineL_text _ p.2 (hok p.2 (List.mem_map.mpr ⟨p, hp, rfl⟩))
+    obtain ⟨hw, hnl⟩ := hind p hp
+    exact ⟨isCommentL_indent hw h1, contBody?_lastGood (LastGood.append _ h2), noNl_append hnl h3,
+      lastGood_not_cr (LastGood.append _ h2)⟩
+  have hsl : Text.scriptLines [printIndented pr items] = (C06.numbered 0 (texts.map String.ofList), none) := by
+    rw [C10.scriptLines_eq]
+    have h0 : splitChunksL ([printIndented pr items].map String.toList) = splitLinesL (joinNl texts) := by
+      simp [splitChunksL, htoList]
+    have h1 : logicalLinesL (splitLinesL (joinNl texts)) = (C06.numbered 0 texts, none) := by
+      rw [splitLinesL_joinNl texts (fun l hl => ⟨(htext l hl).2.2.1, (htext l hl).2.2.2⟩)]
+      by_cases he : texts = []
+      · rw [he]; rfl
+      · rw [if_neg he]
+        exact C06.loopL_plain texts 0 0 (fun c hc => ⟨(htext c hc).1, (htext c hc).2.1⟩)
+    simp only [h0, h1, Option.map_none]
+    rw [C06.numbered_map]
+  -- every indented line classifies as its line
+  have hcl : ∀ p ∈ items.map (fun p : String × Line => (p.1 ++ printLine pr p.2, p.2)),
+      Scan.classify ExprParse.parseExpr p.1 = .ok p.2 := by
+    intro q hq
+    obtain ⟨p, hp, rfl⟩ := List.mem_map.mp hq
+    have hc0 := h.classify p.2 (List.mem_map.mpr ⟨p, hp, rfl⟩)
+    unfold Scan.classify at hc0 ⊢
+    have := C10.classifyL_leading_ws ExprParse.parseExpr hsk (printLine pr p.2).toList (hind p hp).1
+    simp only [String.toList_append]
+    rw [hc0] at this
+    cases hr : classifyL ExprParse.parseExpr (p.1.toList ++ (printLine pr p.2).toList) with
+    | ok x => rw [hr] at this; simp only [C10.EqUpToColumn] at this; rw [this]
+    | error x => rw [hr] at this; simp [C10.EqUpToColumn] at this
+  unfold parseLines at hP
+  cases hs : parseLinesFrom PState.init (items.map Prod.snd) with
+  | error e => rw [hs] at hP; cases hP
+  | ok ps' =>
+    rw [hs] at hP
+    change finish ps' = .ok P at hP
+    have hs' : parseLinesFrom PState.init ((items.map (fun p : String × Line => (p.1 ++ printLine pr p.2, p.2))).map Prod.snd) = .ok ps' := by
+      simpa [List.map_map, Function.comp_def] using hs
+    obtain ⟨wh', h1⟩ := stepAll_pairs start _ 0 (PState.init, {}) ps' hcl hs'
+    have htx : (items.map (fun p : String × Line => (p.1 ++ printLine pr p.2, p.2))).map Prod.fst = texts.map String.ofList := by
+      simp [texts, List.map_map, Function.comp_def, printLine]
+    rw [htx] at h1
+    unfold parseScript
+    simp only [hsl, h1]
+    exact finishAll_of_finish hP
+
+/-- indentation by nesting depth: `n` blanks per level -/
+def depthOf : List Line → Nat → List (Nat × Line)
+  | [], _ => []
+  | l :: ls, d =>
+    match l with
+    | .funcBegin .. | .ifBegin _ | .whileBegin _ | .forBegin .. => (d, l) :: depthOf ls (d + 1)
+    | .funcEnd | .endif | .endwhile | .endfor => (d - 1, l) :: depthOf ls (d - 1)
+    | .elif _ | .else_ => (d - 1, l) :: depthOf ls d
+    | _ => (d, l) :: depthOf ls d
+
+theorem depthOf_snd : ∀ (ls : List Line) (d : Nat), (depthOf ls d).map Prod.snd = ls
+  | [], _ => rfl
+  | l :: ls, d => by
+      cases l <;> simp [depthOf, depthOf_snd ls]
+
+/-- the usual layout: every block body indented by `n` more blanks -/
+def printPretty (pr : Expr → String) (n : Nat) (B : List SStmt) : String :=
+  printIndented pr ((depthOf (renderB B) 0).map fun p => (String.ofList (List.replicate (n * p.1) ' '), p.2))
+
+theorem parseScript_printPretty (hsk : C10.SkipsLeadingBlanks ExprParse.parseExpr) (pr : Expr → String) (n : Nat)
+    (B : List SStmt) (hw : WellNested B) (hf : FidsInOrder B) (hi : NoAdjacentIncludes B)
+    (hp : ProgPrintable pr B = true) (hr : ProgRoundTrips pr B) (start : Nat := 1) :
+    parseScript [printPretty pr n B] start = .ok (lowerProgram B) := by
+  have hsnd : ((depthOf (renderB B) 0).map fun p => (String.ofList (List.replicate (n * p.1) ' '), p.2)).map Prod.snd = renderB B := by
+    rw [List.map_map]; exact depthOf_snd (renderB B) 0
+  refine parseScript_printIndented hsk pr _ ?_ (by rw [hsnd]; exact linesPrintable_of_prog hp hr)
+    (by rw [hsnd]; exact parseLines_render B hw hf hi) start
+  intro p hp'
+  obtain ⟨q, -, rfl⟩ := List.mem_map.mp hp'
+  simp only [String.toList_ofList]
+  refine ⟨?_, ?_⟩
+  · simp only [allSpace, List.all_replicate]
+    simp; exact .inr (by decide)
+  · intro hm; have := List.eq_of_mem_replicate hm; exact absurd this (by decide)
+
 /-! ## a decidable sufficient condition for `ProgRoundTrips` (used by the examples) -/
 
 mutual
@@ -573,6 +721,16 @@ open SourceDemo in
 /-- (c) the text of `SourceDemo.prog` parses to its lowering -/
 example : parseScript [printScript Print.printExpr prog] = .ok (lowerProgram prog) :=
   parseScript_print _ prog prog_structure.1 prog_structure.2.1 prog_structure.2.2 prog_printable prog_roundTrips
+
+open SourceDemo in
+/-- the indented layout (4 blanks per level) of the same program: its first lines, and it parses to the same lowering -/
+example : (((depthOf (renderB prog) 0).map fun p => String.ofList (List.replicate (4 * p.1) ' ') ++ printLine Print.printExpr p.2).take 8 =
+    ["include 'a\\'b\\\\c.bare'", "include <lib.bare>", "n = 0", "async function walk(xs, k...):", "    if k > 1:",
+     "        return k", "    elif arrayLength(xs):", "        while k < 10:"]) ∧
+    (C10.SkipsLeadingBlanks ExprParse.parseExpr →
+      parseScript [printPretty Print.printExpr 4 prog] = .ok (lowerProgram prog)) :=
+  ⟨by decide +kernel, fun hsk => parseScript_printPretty hsk _ 4 prog prog_structure.1 prog_structure.2.1 prog_structure.2.2
+    prog_printable prog_roundTrips⟩
 
 open SourceDemo in
 /-- … and the ill-nested variant is rejected with the parser's message -/
